@@ -40,7 +40,8 @@ Definition label_eqb (a b : label) : bool :=
   end.
 Definition errk_eqb (a b : errk) : bool :=
   match a, b with
-  | EPre, EPre | EStaleKey, EStaleKey | EBroken, EBroken | EPrintFail, EPrintFail | EPost, EPost => true
+  | EPre, EPre | EStaleKey, EStaleKey | EBroken, EBroken | EPrintFail, EPrintFail | EPost, EPost
+  | EHelpArgs, EHelpArgs => true
   | _, _ => false end.
 Definition out_eqb (a b : out) : bool :=
   match a, b with
